@@ -231,7 +231,7 @@ def create_stog_larger_lists(chunk, replay=None):
         if replay:
             k, rects, kind = replay["k"], [tuple(r) for r in replay["rects"]], replay.get("kind")
         else:
-            k = rng.randint(4, 8)
+            k = rng.choice([1, 1, 2, 3]) if rng.random() < 0.15 else rng.randint(4, 8)   # also the smallest lists through the module-level entry points (after seed C06-12)
             kind, rects = _random_list(rng, k)
         values = {"E": 1e-6, "EA": 1e-9}
         far = (replay or {}).get("far", None)
@@ -257,7 +257,7 @@ def create_stog_larger_lists(chunk, replay=None):
             Rectangle.undefine_epsilon()
             Rectangle.set_epsilon(1e-6, 1e-9)
             mrects = [Rectangle(center=Point((a0 + a1) / 2, (b0 + b1) / 2), shape=Shape(a1 - a0, b1 - b0)) for (a0, b0, a1, b1) in rects]
-            expect = "create_stog.first_is_a_valid_trunk" in cs.passed
+            expect = "create_stog.first_is_a_valid_trunk" in cs.passed or "create_stog.single_rectangle_is_a_trunk" in cs.passed
             mod = Module("M", area=1.0)
             for r in mrects:
                 mod.add_rectangle(r)
